@@ -348,66 +348,37 @@ def _setter_args(eff):
 
 
 def onedays(R, lib, ob):
-    ld = 'ld'
-    D = Poly.atom(('fn', 'ace_time::LocalDate::day', (Poly.atom(('sym', ld)).key(),)))
-    M = Poly.atom(('fn', 'ace_time::LocalDate::month', (Poly.atom(('sym', ld)).key(),)))
-    Y = Poly.atom(('fn', 'ace_time::LocalDate::yearTiny', (Poly.atom(('sym', ld)).key(),)))
-    YY = Poly.atom(('fn', 'ace_time::LocalDate::year', (Poly.atom(('sym', ld)).key(),)))
-
-    def dimp(m):
-        return Poly.atom(('fn', 'ace_time::LocalDate::daysInMonth', (YY.key(), m.key())))
-    one = Poly.const(1)
-    f = lib.fn('ace_time::local_date_mutation::incrementOneDay')
-    if f.params[0][0] != ld:
-        ld2 = f.params[0][0]
-        raise AnalysisError('%s: parameter renamed to %s (role map expects ld)' % (f.loc, ld2))
-    s = SymExec(fold_global=lib.global_value).run(f.name, f.body, {})
-    want = {
-        'stay': {'day': D + one, 'month': M, 'yearTiny': Y},
-        'month': {'day': one, 'month': M + one, 'yearTiny': Y},
-        'year': {'day': one, 'month': one, 'yearTiny': Y + one},
-    }
-    from .gnf import cmp_formula, f_and, f_not, formulas_equivalent, formula_str
-    wrap = cmp_formula('>', D + one, dimp(M))
-    carry = cmp_formula('>', M + one, Poly.const(12))
-    wantg = {'stay': f_not(wrap), 'month': f_and(wrap, f_not(carry)), 'year': f_and(wrap, carry)}
-    ok = len(s.paths) == 3
-    why = []
-    for name, w in want.items():
-        hit = [gd for gd, kind, res, eff in s.paths if _setter_args(eff) == w]
-        if len(hit) != 1:
-            ok = False
-            why.append('no outcome %s' % name)
-            continue
-        eq, cex = formulas_equivalent(hit[0], wantg[name])
-        if not eq:
-            ok = False
-            why.append('outcome %s is taken under %s, expected %s' % (name, formula_str(hit[0])[:120], formula_str(wantg[name])[:120]))
-    ob('R4', f.name, f.loc, ok, '; '.join(why) or 'outcomes do not match the calendar carries')
-    f = lib.fn('ace_time::local_date_mutation::decrementOneDay')
-    s = SymExec(fold_global=lib.global_value).run(f.name, f.body, {})
-    mm1 = M - one
-    want = {
-        'stay': {'day': D - one, 'month': M, 'yearTiny': Y},
-        'month': {'day': dimp(mm1), 'month': mm1, 'yearTiny': Y},
-        'year': {'day': Poly.const(31), 'month': Poly.const(12), 'yearTiny': Y - one},
-    }
-    borrow = cmp_formula('==', D - one, Poly.const(0))
-    jan = cmp_formula('==', M, Poly.const(1))
-    wantg = {'stay': f_not(borrow), 'month': f_and(borrow, f_not(jan)), 'year': f_and(borrow, jan)}
-    ok = len(s.paths) == 3
-    why = []
-    for name, w in want.items():
-        hit = [gd for gd, kind, res, eff in s.paths if _setter_args(eff) == w]
-        if len(hit) != 1:
-            ok = False
-            why.append('no outcome %s' % name)
-            continue
-        eq, cex = formulas_equivalent(hit[0], wantg[name])
-        if not eq:
-            ok = False
-            why.append('outcome %s is taken under %s, expected %s' % (name, formula_str(hit[0])[:120], formula_str(wantg[name])[:120]))
-    ob('R4', f.name, f.loc, ok, '; '.join(why) or 'outcomes do not match the calendar borrows')
+    """incrementOneDay / decrementOneDay are interpreted (E-SEQ, typed, the accessors, setters and daysInMonth through their
+    real bodies) on the first and the last days of every month of a common year, a leap year, a century common year and a
+    century leap year (thorough tier: every day of those years): the result must be the calendar's next / previous day."""
+    import datetime
+    from .aeval import AEval, CxxModule, Raised, cxx_object
+    mod = CxxModule(lib, ['ace_time::'])
+    thorough = R.cfg.tier == 'thorough'
+    for name, step in (('incrementOneDay', 1), ('decrementOneDay', -1)):
+        f = lib.fn('ace_time::local_date_mutation::' + name)
+        bad = None
+        n = 0
+        for year in (1999, 2000, 2004, 2100):
+            d = datetime.date(year, 1, 1)
+            while d.year == year:
+                nxt = d + datetime.timedelta(days=step)
+                edge = d.day <= 2 or (d + datetime.timedelta(days=3)).month != d.month
+                if (thorough or edge) and 1873 <= nxt.year <= 2127:
+                    ld = cxx_object(lib, 'ace_time::LocalDate')
+                    ld.attrs.update({'mYearTiny': d.year - 2000, 'mMonth': d.month, 'mDay': d.day})
+                    try:
+                        AEval(module=mod, typed=True, max_steps=5000).call_function(f.name, [ld], chosen=CxxModule._Fn(f))
+                        got = (2000 + ld.attrs['mYearTiny'], ld.attrs['mMonth'], ld.attrs['mDay'])
+                    except Raised as x_:
+                        got = 'raises %s' % x_.what
+                    n += 1
+                    if got != (nxt.year, nxt.month, nxt.day) and bad is None:
+                        bad = '%s turns %s into %s, the calendar says %s' % (name, d.isoformat(), got, nxt.isoformat())
+                d += datetime.timedelta(days=1)
+        R.instance('R4', f.name, f.loc, '%d interpreted dates' % n)
+        if bad:
+            R.violation('R4', f.name, f.loc, bad)
 
 
 SELFTEST = [
